@@ -1,10 +1,13 @@
 ---- MODULE Gen_Policy ----
 EXTENDS PolicyBig
 Reps == IF "TIER" \in DOMAIN IOEnv /\ IOEnv.TIER = "thorough" THEN AllReps ELSE AllReps \ {"f80"}
-VARIABLES r1, r2, k
-Init == r1 \in Reps /\ r2 \in Reps /\ k \in Ks
-Next == UNCHANGED <<r1, r2, k>>
-Emit == PrintT(<<"CASE", ToJson([R1 |-> r1, R2 |-> r2, kname |-> KName(k), N |-> ToDec(k.n), D |-> ToDec(k.d),
-                                 ok |-> ImplicitOK(r1, r2, k.kind, k.n, k.d),
-                                 mixed |-> MixedOK(r1, r2, k.kind, k.n, k.d)])>>)
+\* the predicate's first conjunct is "the dimensions match": the same questions between units of different dimensions (same magnitudes)
+\* must be answered "no" -- for a few representative ratios
+KsX == {k \in Ks : k.kind = "rat" /\ k.d = One /\ (k.n = One \/ k.n = FromInt(1000) \/ k.n = FromInt(2))}
+VARIABLES r1, r2, k, samedim
+Init == r1 \in Reps /\ r2 \in Reps /\ ((k \in Ks /\ samedim = TRUE) \/ (k \in KsX /\ samedim = FALSE))
+Next == UNCHANGED <<r1, r2, k, samedim>>
+Emit == PrintT(<<"CASE", ToJson([R1 |-> r1, R2 |-> r2, kname |-> KName(k), N |-> ToDec(k.n), D |-> ToDec(k.d), samedim |-> samedim,
+                                 ok |-> samedim /\ ImplicitOK(r1, r2, k.kind, k.n, k.d),
+                                 mixed |-> samedim /\ MixedOK(r1, r2, k.kind, k.n, k.d)])>>)
 ====
